@@ -80,3 +80,295 @@ pub const POINTS: &[&str] = &[
     "recv:after-flag-load",
     "recv:before-await",
 ];
+
+// ---------------------------------------------------------------------------------------------
+// H-MERGE, update part: the production `MetadataUpdate::merge_*` closures through the production
+// channel, with plain-data payloads in and plain-data views out. Conversions only, no semantics.
+// ---------------------------------------------------------------------------------------------
+
+use std::collections::HashMap;
+use std::future::Future;
+use std::net::{IpAddr, Ipv4Addr, SocketAddr};
+
+use tokio::sync::oneshot;
+use uuid::Uuid;
+
+use crate::cluster::NodeAddr;
+use crate::cluster::metadata::update::verif_seam as seam;
+use crate::cluster::metadata::update::ClientRoutesUpdate;
+use crate::cluster::metadata::{ClientRoute, ClientRoutes, Metadata, Peer, SingleKeyspaceMetadataError};
+use crate::errors::MetadataError;
+
+/// One full-fetch result, in plain data. Peers are host tags; a keyspace is its name (its content is an
+/// error entry, which needs no schema); routes are (host tag, connection id, port).
+#[derive(Clone, Debug, PartialEq, Eq)]
+pub struct FullPayload {
+    pub peers: Vec<u32>,
+    pub keyspaces: Vec<String>,
+    pub cluster_name: Option<String>,
+    /// `None`: client routes are not configured for the session.
+    pub client_routes: Option<Vec<(u32, String, u16)>>,
+}
+
+/// One producer step: exactly the closures `MetadataWorker` passes to `send_update`.
+#[derive(Clone, Debug, PartialEq, Eq)]
+pub enum MergeOp {
+    /// `merge_metadata(metadata, refresh_response)`; `responder`: attach a refresh responder with this token
+    Full { payload: FullPayload, responder: Option<u32> },
+    /// `merge_topology_update(peers)`
+    Topology { peers: Vec<u32> },
+    /// `merge_client_routes_update`: (host tag, connection id, Some(port) = upsert / None = removed)
+    ClientRoutes { entries: Vec<(u32, String, Option<u16>)> },
+    /// `merge_up_hint(127.0.0.<n>:9042)`
+    UpHint(u8),
+    /// `merge_down_hint(127.0.0.<n>:9042)`
+    DownHint(u8),
+}
+
+/// A received `MetadataUpdate` in plain data.
+#[derive(Clone, Debug, PartialEq, Eq)]
+pub enum ReceivedChanges {
+    None,
+    Full { payload: FullPayload, responders: Vec<u32> },
+    Partial { peers: Option<Vec<u32>>, client_routes: Option<Vec<(u32, String, Option<u16>)>> },
+}
+#[derive(Clone, Debug, PartialEq, Eq)]
+pub struct ReceivedUpdate {
+    pub changes: ReceivedChanges,
+    /// (address tag, is UP), sorted
+    pub hints: Vec<(u8, bool)>,
+}
+
+#[derive(Clone, Copy, Debug, PartialEq, Eq)]
+pub enum ResponderState {
+    /// its sender is alive somewhere (pending in the channel)
+    Pending,
+    /// the consumer side of this hook got the sender in a received value and answered it
+    Answered,
+    /// the sender was dropped without an answer
+    Dropped,
+}
+
+fn hint_addr(n: u8) -> SocketAddr {
+    SocketAddr::new(IpAddr::V4(Ipv4Addr::new(127, 0, 0, n)), 9042)
+}
+fn host(tag: u32) -> Uuid {
+    Uuid::from_u128(tag as u128)
+}
+fn tag(id: Uuid) -> u32 {
+    id.as_u128() as u32
+}
+fn peer(t: u32) -> Peer {
+    Peer {
+        host_id: host(t),
+        address: NodeAddr::Translatable(SocketAddr::new(IpAddr::V4(Ipv4Addr::new(10, 0, (t >> 8) as u8, t as u8)), 9042)),
+        tokens: Vec::new(),
+        datacenter: None,
+        rack: None,
+    }
+}
+fn route(h: u32, conn: &str, port: u16) -> ClientRoute {
+    ClientRoute { connection_id: conn.to_owned(), host_id: host(h), hostname: "h".to_owned(), port: Some(port), tls_port: None }
+}
+
+fn to_metadata(p: &FullPayload) -> Metadata {
+    Metadata {
+        peers: p.peers.iter().map(|t| peer(*t)).collect(),
+        keyspaces: p
+            .keyspaces
+            .iter()
+            .map(|k| (k.clone(), Err(SingleKeyspaceMetadataError::IncompletePartitionKey(0))))
+            .collect(),
+        cluster_name: p.cluster_name.clone(),
+        client_routes: p.client_routes.as_ref().map(|rs| {
+            let mut cr = ClientRoutes::default();
+            cr.extend(rs.iter().map(|(h, c, port)| route(*h, c, *port)));
+            cr
+        }),
+    }
+}
+fn from_metadata(m: &Metadata) -> FullPayload {
+    let mut keyspaces: Vec<String> = m.keyspaces.keys().cloned().collect();
+    keyspaces.sort();
+    FullPayload {
+        peers: m.peers.iter().map(|p| tag(p.host_id)).collect(),
+        keyspaces,
+        cluster_name: m.cluster_name.clone(),
+        client_routes: m.client_routes.as_ref().map(|cr| {
+            let mut v: Vec<(u32, String, u16)> =
+                cr.routes.iter().flat_map(|(h, per)| per.iter().map(move |(c, r)| (tag(*h), c.clone(), r.port.unwrap_or(0)))).collect();
+            v.sort();
+            v
+        }),
+    }
+}
+fn to_routes_update(entries: &[(u32, String, Option<u16>)]) -> ClientRoutesUpdate {
+    let mut updates: HashMap<Uuid, HashMap<String, Option<ClientRoute>>> = HashMap::new();
+    for (h, c, port) in entries {
+        updates.entry(host(*h)).or_default().insert(c.clone(), port.map(|p| route(*h, c, p)));
+    }
+    ClientRoutesUpdate { updates }
+}
+fn from_routes_update(u: &ClientRoutesUpdate) -> Vec<(u32, String, Option<u16>)> {
+    let mut v: Vec<(u32, String, Option<u16>)> =
+        u.updates.iter().flat_map(|(h, per)| per.iter().map(move |(c, r)| (tag(*h), c.clone(), r.as_ref().map(|r| r.port.unwrap_or(0))))).collect();
+    v.sort();
+    v
+}
+
+/// Both endpoints of a production `merge_channel::<MetadataUpdate>()` plus the receiving halves of the
+/// refresh responders merged in so far.
+pub struct UpdateChannel {
+    tx: Option<seam::Tx>,
+    rx: seam::Rx,
+    responders: Vec<(u32, oneshot::Receiver<Result<(), MetadataError>>, ResponderState)>,
+}
+
+impl UpdateChannel {
+    pub fn new() -> UpdateChannel {
+        let (tx, rx) = seam::channel();
+        UpdateChannel { tx: Some(tx), rx, responders: Vec::new() }
+    }
+
+    /// One producer step through `Sender::modify`. Err = the channel reported the receiver gone.
+    pub fn merge(&mut self, op: &MergeOp) -> Result<(), ReceiverGone> {
+        let tx = self.tx.as_mut().expect("sender already dropped");
+        let r = match op {
+            MergeOp::Full { payload, responder } => {
+                let chan = responder.map(|token| {
+                    let (s, r) = oneshot::channel();
+                    self.responders.push((token, r, ResponderState::Pending));
+                    s
+                });
+                tx.merge_metadata(to_metadata(payload), chan)
+            }
+            MergeOp::Topology { peers } => tx.merge_topology_update(peers.iter().map(|t| peer(*t)).collect()),
+            MergeOp::ClientRoutes { entries } => tx.merge_client_routes_update(to_routes_update(entries)),
+            MergeOp::UpHint(n) => tx.merge_up_hint(hint_addr(*n)),
+            MergeOp::DownHint(n) => tx.merge_down_hint(hint_addr(*n)),
+        };
+        r.map_err(|_| ReceiverGone)
+    }
+
+    /// Drops the producer endpoint (the metadata worker ended).
+    pub fn drop_sender(&mut self) {
+        self.tx = None;
+    }
+
+    /// Polls a fresh `Receiver::recv()` once and drops it: `Some(Some(v))` a value, `Some(None)` the
+    /// producer is gone and nothing is pending, `None` nothing pending yet. Every refresh responder found
+    /// in the value is answered `Ok(())`, as the cluster worker does after publishing.
+    pub fn recv_now(&mut self) -> Option<Option<ReceivedUpdate>> {
+        let got = {
+            let fut = std::pin::pin!(self.rx.recv());
+            let mut cx = std::task::Context::from_waker(std::task::Waker::noop());
+            match fut.poll(&mut cx) {
+                std::task::Poll::Pending => return None,
+                std::task::Poll::Ready(v) => v,
+            }
+        };
+        let Some(view) = got else { return Some(None) };
+        let mut hints: Vec<(u8, bool)> = view
+            .hints
+            .iter()
+            .map(|(a, up)| (match a.ip() { IpAddr::V4(v4) => v4.octets()[3], _ => 0 }, *up))
+            .collect();
+        hints.sort();
+        let changes = match view.changes {
+            None => ReceivedChanges::None,
+            Some(seam::ChangesView::Full { metadata, refresh_responses }) => {
+                let n = refresh_responses.len();
+                for s in refresh_responses {
+                    let _ = s.send(Ok(()));
+                }
+                // which of our receivers got an answer just now
+                let mut answered = Vec::new();
+                for (token, r, st) in self.responders.iter_mut() {
+                    if *st == ResponderState::Pending {
+                        if let Ok(Ok(())) = r.try_recv() {
+                            *st = ResponderState::Answered;
+                            answered.push(*token);
+                        }
+                    }
+                }
+                // a sender that is not one of ours would show up as a count mismatch
+                if answered.len() != n {
+                    answered.push(u32::MAX);
+                }
+                ReceivedChanges::Full { payload: from_metadata(&metadata), responders: answered }
+            }
+            Some(seam::ChangesView::Partial { client_routes_updates, peers }) => ReceivedChanges::Partial {
+                peers: peers.map(|ps| ps.iter().map(|p| tag(p.host_id)).collect()),
+                client_routes: client_routes_updates.as_ref().map(from_routes_update),
+            },
+        };
+        Some(Some(ReceivedUpdate { changes, hints }))
+    }
+
+    /// State of every responder merged in so far, in merge order.
+    pub fn responder_states(&mut self) -> Vec<(u32, ResponderState)> {
+        for (_, r, st) in self.responders.iter_mut() {
+            if *st == ResponderState::Pending {
+                match r.try_recv() {
+                    Ok(_) => *st = ResponderState::Answered,
+                    Err(oneshot::error::TryRecvError::Closed) => *st = ResponderState::Dropped,
+                    Err(oneshot::error::TryRecvError::Empty) => {}
+                }
+            }
+        }
+        self.responders.iter().map(|(t, _, s)| (*t, *s)).collect()
+    }
+}
+
+impl Default for UpdateChannel {
+    fn default() -> Self {
+        Self::new()
+    }
+}
+
+// ---------------------------------------------------------------------------------------------
+// H-MERGE, request side: the metadata worker's `FetchPlan` (fetch work owed but not started).
+// ---------------------------------------------------------------------------------------------
+
+/// What a `FetchPlan` owes, in plain data.
+#[derive(Clone, Debug, PartialEq, Eq)]
+pub struct PlanView {
+    pub full: bool,
+    pub topology: bool,
+    /// (connection id, host tag), sorted
+    pub client_routes: Vec<(String, u32)>,
+}
+
+/// A production `FetchPlan`, starting from `FetchPlan::empty()`.
+pub struct PlanProbe(crate::cluster::metadata::worker_verif_seam::Plan);
+
+impl PlanProbe {
+    pub fn new() -> Self {
+        PlanProbe(crate::cluster::metadata::worker_verif_seam::Plan::new())
+    }
+    pub fn note_full_needed(&mut self) {
+        self.0.note_full_needed()
+    }
+    pub fn note_topology(&mut self) {
+        self.0.note_topology()
+    }
+    pub fn note_client_routes(&mut self, pairs: &[(String, u32)]) {
+        self.0.note_client_routes(pairs.iter().map(|(c, h)| (c.clone(), host(*h))).collect())
+    }
+    /// Everything owed has been started (what `start_due_fetches` leaves behind).
+    pub fn drain(&mut self) {
+        self.0.drain()
+    }
+    pub fn describe(&self) -> PlanView {
+        let (full, topology, pairs) = self.0.describe();
+        let mut client_routes: Vec<(String, u32)> = pairs.into_iter().map(|(c, h)| (c, tag(h))).collect();
+        client_routes.sort();
+        PlanView { full, topology, client_routes }
+    }
+}
+
+impl Default for PlanProbe {
+    fn default() -> Self {
+        Self::new()
+    }
+}
